@@ -248,40 +248,143 @@ def run(ctx, repo, tier):
             ds = [n for n in gd.node.body if isinstance(n, ast.Assign) and src(n.targets[0]) == name]
             return ds[-1] if ds else None
         dv, dwv = last_def(vname), last_def(wname)
-        okv = okw = False
-        idx_name = None
-        if dv is not None and isinstance(dv.value, ast.Subscript) and src(dv.value.value) == vname and isinstance(dv.value.slice, ast.Name):
-            idx_name = dv.value.slice.id
-            k = oa.expr_kind.get(id(dv.value.slice))
-            perm = k.perm_of if k is not None else None
-            if perm is not None and perm.startswith("DESC:") and perm.split(":", 1)[1] == vname:
-                okv = True
-                ctx.ok("ORD", "C14.decomp.values", "eigenvalues are permuted by the descending argsort of the eigenvalues", dw, norm_stmt(dv), derived=perm)
-            elif perm is not None and perm.startswith("ASC:"):
-                ctx.violate("ORD", "C14.decomp.values", "eigenvalues are sorted ascending: the largest (zero) eigenvalue and the stationary vector "
-                            "are no longer first", dw, norm_stmt(dv), witness=perm)
-            else:
-                ctx.inconclusive("ORD", "C14.decomp.values", "order of the eigenvalue permutation not derivable", dw, norm_stmt(dv), witness=str(k))
-        else:
-            ctx.inconclusive("ORD", "C14.decomp.values", "eigenvalue sorting idiom not recognised", dw, norm_stmt(dv) if dv is not None else "")
-        if dwv is not None and isinstance(dwv.value, ast.Subscript) and src(dwv.value.value) == wname:
-            sl = dwv.value.slice
-            if isinstance(sl, ast.Tuple) and len(sl.elts) == 2 and isinstance(sl.elts[0], ast.Slice) and sl.elts[0].lower is None and \
-                    sl.elts[0].upper is None and isinstance(sl.elts[1], ast.Name):
-                if idx_name is not None and sl.elts[1].id == idx_name:
-                    ctx.ok("PAIR", "C14.decomp.vectors", "the same permutation is applied to the COLUMNS of the eigenvector array", dw, norm_stmt(dwv))
+        # Order states along the straight-line body.  The eigenvalue array is 'raw' (ARPACK order) until it is sorted; an index vector remembers
+        # the state of the array it was computed from: argsort of the RAW values is the sorting permutation, argsort of the already SORTED
+        # values is the identity (descending of descending) and moves nothing.
+        state = "raw"                      # of vname: raw | DESC | ASC | other
+        perms = {}                         # index name -> (direction, state of vname when computed)
+        col_perms, row_perm, unknown_w, unknown_v = [], None, None, None
+        def elementwise_of(e, name):
+            e = strip_elementwise(e)
+            return isinstance(e, ast.Name) and e.id == name
+        def strip_elementwise(e):
+            while True:
+                if isinstance(e, ast.Attribute) and e.attr in ("real", "T") and e.attr == "real":
+                    e = e.value
+                elif isinstance(e, ast.Call) and src(e.func) in ("np.real", "numpy.real", "np.asarray", "np.array", "np.real_if_close") and e.args:
+                    e = e.args[0]
+                elif isinstance(e, ast.Call) and isinstance(e.func, ast.Attribute) and e.func.attr in ("astype", "copy") :
+                    e = e.func.value
                 else:
-                    ctx.violate("PAIR", "C14.decomp.vectors", "eigenvectors are permuted with a different index vector than the eigenvalues", dw,
-                                norm_stmt(dwv), witness=f"values use {idx_name}, vectors use {sl.elts[1].id}")
-            elif isinstance(sl, ast.Name) or (isinstance(sl, ast.Tuple) and isinstance(sl.elts[0], ast.Name)):
-                ctx.violate("PAIR", "C14.decomp.vectors", "the permutation is applied to the ROWS (cells) of the eigenvector array instead of its "
-                            "columns: eigenvalue k no longer belongs to vector k and cell order is scrambled", dw, norm_stmt(dwv), witness=src(sl))
-            else:
-                ctx.inconclusive("PAIR", "C14.decomp.vectors", "eigenvector permutation idiom not recognised", dw, norm_stmt(dwv))
+                    return e
+        def sort_dir(e):
+            """direction of a value sort of vname: np.sort(v) ASC, np.sort(v)[::-1] / -np.sort(-v) / np.flip(np.sort(v)) DESC"""
+            rev = False
+            while True:
+                if isinstance(e, ast.Subscript) and src(e.slice) == "::-1":
+                    rev, e = not rev, e.value
+                elif isinstance(e, ast.Call) and src(e.func) in ("np.flip", "numpy.flip", "np.flipud") and len(e.args) == 1:
+                    rev, e = not rev, e.args[0]
+                else:
+                    break
+            if isinstance(e, ast.Call) and src(e.func) in ("np.sort", "numpy.sort", "sorted") and e.args and elementwise_of(e.args[0], vname):
+                if any(k.arg == "reverse" for k in e.keywords):
+                    kw = [k for k in e.keywords if k.arg == "reverse"][0]
+                    if isinstance(kw.value, ast.Constant) and kw.value.value is True:
+                        rev = not rev
+                    elif not (isinstance(kw.value, ast.Constant) and kw.value.value is False):
+                        return "?"
+                return "DESC" if rev else "ASC"
+            if isinstance(e, ast.UnaryOp) and isinstance(e.op, ast.USub) and isinstance(e.operand, ast.Call) and \
+                    src(e.operand.func) in ("np.sort", "numpy.sort") and e.operand.args and isinstance(e.operand.args[0], ast.UnaryOp) and \
+                    isinstance(e.operand.args[0].op, ast.USub) and elementwise_of(e.operand.args[0].operand, vname):
+                return "ASC" if rev else "DESC"
+            return None
+        def perm_at(e, st):
+            """(direction, state of the values it was computed from, statement) of an index expression, None when it is not an argsort"""
+            if isinstance(e, ast.Name) and e.id in perms:
+                return perms[e.id]
+            k_ = oa.expr_kind.get(id(e))
+            if k_ is not None and k_.perm_of is not None and k_.perm_of.startswith(("ASC:", "DESC:")):
+                d_, of_ = k_.perm_of.split(":", 1)
+                return (d_, state, st) if of_ == vname else ("?", of_, st)
+            return None
+        nested = [n for st in gd.node.body if not isinstance(st, ast.Assign) for n in ast.walk(st)
+                  if isinstance(n, (ast.Assign, ast.AugAssign)) and any(src(t) in (vname, wname) for t in (n.targets if isinstance(n, ast.Assign) else [n.target]))]
+        for st in gd.node.body:
+            if not isinstance(st, ast.Assign) or len(st.targets) != 1:
+                continue
+            t, v = st.targets[0], st.value
+            if isinstance(t, ast.Tuple):
+                continue
+            tn = src(t)
+            k = oa.expr_kind.get(id(v))
+            if k is not None and k.perm_of is not None and k.perm_of.startswith(("ASC:", "DESC:")) and isinstance(t, ast.Name):
+                d, of = k.perm_of.split(":", 1)
+                perms[tn] = (d, state, st) if of == vname else ("?", of, st)
+                continue
+            if tn == vname:
+                if elementwise_of(v, vname):
+                    continue
+                sd = sort_dir(v)
+                if sd in ("ASC", "DESC"):
+                    state = sd
+                elif isinstance(v, ast.Subscript) and elementwise_of(v.value, vname) and perm_at(v.slice, st) is not None:
+                    d, at, _ = perm_at(v.slice, st)
+                    if d in ("ASC", "DESC") and at == "raw" and state == "raw":
+                        state = d
+                    elif d in ("ASC", "DESC") and at == state and at in ("ASC", "DESC"):
+                        state = d            # argsort of sorted values: identity (same direction) or reversal
+                    else:
+                        state, unknown_v = "other", st
+                else:
+                    state, unknown_v = "other", st
+            elif tn == wname:
+                if elementwise_of(v, wname):
+                    continue
+                if isinstance(v, ast.Subscript) and elementwise_of(v.value, wname):
+                    sl = v.slice
+                    if isinstance(sl, ast.Tuple) and len(sl.elts) == 2 and isinstance(sl.elts[0], ast.Slice) and sl.elts[0].lower is None and \
+                            sl.elts[0].upper is None and sl.elts[0].step is None and perm_at(sl.elts[1], st) is not None:
+                        col_perms.append((src(sl.elts[1]), perm_at(sl.elts[1], st), st))
+                    elif perm_at(sl, st) is not None or (isinstance(sl, ast.Tuple) and perm_at(sl.elts[0], st) is not None):
+                        row_perm = st
+                    else:
+                        unknown_w = st
+                else:
+                    unknown_w = st
+        if nested:
+            ctx.inconclusive("ORD", "C14.decomp.values", "eigenvalue / eigenvector arrays are re-assigned inside a nested block", dw, norm_stmt(nested[0]))
+            ctx.inconclusive("PAIR", "C14.decomp.vectors", "eigenvalue / eigenvector arrays are re-assigned inside a nested block", dw, norm_stmt(nested[0]))
         else:
-            ctx.violate("PAIR", "C14.decomp.vectors", "eigenvalues are re-ordered but the eigenvectors are not", dw,
-                        norm_stmt(dwv) if dwv is not None else "", witness="no permutation of the eigenvector array follows the sort") \
-                if okv else ctx.inconclusive("PAIR", "C14.decomp.vectors", "eigenvector permutation not recognised", dw)
+            if state == "DESC":
+                ctx.ok("ORD", "C14.decomp.values", "eigenvalues leave in descending order (sorted from the raw solver order)", dw, norm_stmt(dv) if dv is not None else "")
+            elif state == "ASC":
+                ctx.violate("ORD", "C14.decomp.values", "eigenvalues are sorted ascending: the largest (zero) eigenvalue and the stationary vector "
+                            "are no longer first", dw, norm_stmt(dv) if dv is not None else "", witness="state ASC at return")
+            elif state == "raw":
+                ctx.violate("ORD", "C14.decomp.values", "eigenvalues are returned in solver order: nothing sorts them descending", dw, "",
+                            witness="no sort of the eigenvalue array on the path to the return")
+            else:
+                ctx.inconclusive("ORD", "C14.decomp.values", "eigenvalue sorting idiom not recognised", dw, norm_stmt(unknown_v) if unknown_v is not None else "")
+            real = [c for c in col_perms if c[1][0] in ("ASC", "DESC") and c[1][1] == "raw"]
+            ident = [c for c in col_perms if c[1][0] in ("ASC", "DESC") and c[1][1] == c[1][0]]
+            other = [c for c in col_perms if c not in real and c not in ident]
+            if row_perm is not None:
+                ctx.violate("PAIR", "C14.decomp.vectors", "the permutation is applied to the ROWS (cells) of the eigenvector array instead of its "
+                            "columns: eigenvalue k no longer belongs to vector k and cell order is scrambled", dw, norm_stmt(row_perm), witness=src(row_perm.value.slice))
+            elif unknown_w is not None or other:
+                bad = unknown_w if unknown_w is not None else other[0][2]
+                if other and other[0][1][0] == "?":
+                    ctx.violate("PAIR", "C14.decomp.vectors", "eigenvectors are permuted with an index vector that is not the argsort of the eigenvalues", dw,
+                                norm_stmt(bad), witness=f"{other[0][0]} is the argsort of {other[0][1][1]}")
+                else:
+                    ctx.inconclusive("PAIR", "C14.decomp.vectors", "eigenvector permutation idiom not recognised", dw, norm_stmt(bad))
+            elif len(real) == 1 and state in ("ASC", "DESC") and real[0][1][0] == state:
+                ctx.ok("PAIR", "C14.decomp.vectors", "the columns of the eigenvector array are permuted by the argsort (same direction) of the raw "
+                       "eigenvalues: vector k belongs to value k", dw, norm_stmt(real[0][2]))
+            elif len(real) == 1 and state in ("ASC", "DESC"):
+                ctx.violate("PAIR", "C14.decomp.vectors", "eigenvalues and eigenvectors are sorted in opposite directions", dw, norm_stmt(real[0][2]),
+                            witness=f"values {state}, vectors {real[0][1][0]}")
+            elif not real and state in ("ASC", "DESC"):
+                w = (f"{ident[0][0]} is the argsort of the already sorted eigenvalues: the identity permutation" if ident else
+                     "no permutation of the eigenvector array follows the sort")
+                ctx.violate("PAIR", "C14.decomp.vectors", "eigenvalues are re-ordered but the eigenvectors are not: eigenvalue k no longer belongs to "
+                            "column k, the stationary density is no longer column 0", dw, norm_stmt(ident[0][2]) if ident else "", witness=w)
+            elif not real and state == "raw":
+                ctx.ok("PAIR", "C14.decomp.vectors", "neither array is re-ordered (pairing kept; order reported by C14.decomp.values)", dw, "")
+            else:
+                ctx.inconclusive("PAIR", "C14.decomp.vectors", "eigenvector permutation not recognised", dw)
     # ------------------------------------------------------------ decomposition rule wiring
     rd = f_s.rules.get("run_decomposition")
     if rd is None or rd.run is None:
